@@ -974,7 +974,10 @@ def m_add(eng, obj, args, kwargs, state, node):
 
 @reg("method:cache_clear")
 def m_cache_clear(eng, obj, args, kwargs, state, node):
-    yield NONE, state
+    st = state.fork()
+    if isinstance(obj, VFunc):
+        st.cleared = st.cleared | {obj.qual}
+    yield NONE, st
 
 
 # loops ---------------------------------------------------------------------------------------
